@@ -419,7 +419,7 @@ func TestVerifC15MF(t *testing.T) {
 	defer o.close()
 	defer func(v bool) { table.SelectionOptions.AlwaysCompareMed = v }(table.SelectionOptions.AlwaysCompareMed)
 	r := &vRand{s: o.seed*49979687 + 19}
-	n := 90
+	n := 60
 	if o.thorough {
 		n = 900
 	}
